@@ -224,6 +224,9 @@ type HandlerConf struct {
 	OmitIdentifiers bool
 	// KeyLabel: the handler's "key_label" option ("" = left out)
 	KeyLabel string
+	// OtherSections: the file also configures other handlers - among them sections whose names differ from the
+	// regular handler's only in letter case or by a suffix - with another validity and other key slots
+	OtherSections bool
 }
 
 // WriteGensignConfig writes a configuration file and loads it with the repository's loader.
@@ -238,7 +241,17 @@ func WriteGensignConfig(dir string, hc HandlerConf) (*config.GensignConfig, erro
 	if !hc.OmitIdentifiers {
 		h["key_identifiers"] = hc.KeyIdentifiers
 	}
-	doc := map[string]any{"keyid_version": 1, "handlers": map[string]any{regular.HandlerName: h}}
+	handlers := map[string]any{regular.HandlerName: h}
+	if hc.OtherSections {
+		other := func(tag string) map[string]any {
+			return map[string]any{"pub_key_dir": hc.PubKeyDir + "/" + tag, "cert_validity_sec": 2592000 + len(tag),
+				"key_identifiers": map[string]string{"default": "slot-of-" + tag, "rsa": "rsa-slot-of-" + tag, "ecdsa": "ecdsa-slot-of-" + tag, "ed25519": "ed25519-slot-of-" + tag, "dsa": "dsa-slot-of-" + tag}}
+		}
+		for _, n := range []string{"Paranoids.Regular", "PARANOIDS.REGULAR", regular.HandlerName + "2", "paranoids", "a.first", "zz.last"} {
+			handlers[n] = other(n)
+		}
+	}
+	doc := map[string]any{"keyid_version": 1, "handlers": handlers}
 	b, _ := json.Marshal(doc)
 	p := filepath.Join(dir, fmt.Sprintf("config-%d.json", time.Now().UnixNano()))
 	if err := os.WriteFile(p, b, 0o644); err != nil {
@@ -391,6 +404,9 @@ type FakeHandler struct {
 	// key.PublicKeyAlgo + 1; PrivLabel: the private key's label ("" = default)
 	KeyAlgo   int
 	PrivLabel string
+	// SameKeyID: the requests of one agent key all carry the same KeyId and differ in the CA key they name
+	// (KeyMeta.Identifier "verif-slot-<j>"): one certificate per CA key for the same key and identity
+	SameKeyID bool
 	Keys    []*FakeAgentKey
 	Refresh func(*agent.Key) bool
 }
@@ -527,8 +543,12 @@ func (h *FakeHandler) Generate(p *csr.ReqParam) ([]csr.AgentKey, error) {
 			pubText = string(ssh.MarshalAuthorizedKey(ak.PublicKey()))
 		}
 		for j := 0; j < nr; j++ {
-			fk.csrs = append(fk.csrs, &proto.SSHCertificateSigningRequest{KeyMeta: &proto.KeyMeta{Identifier: "verif"}, Principals: []string{p.LogName},
-				PublicKey: pubText, Validity: 3600, KeyId: fmt.Sprintf("verif %s key %d request %d", h.ID, i, j)})
+			req := &proto.SSHCertificateSigningRequest{KeyMeta: &proto.KeyMeta{Identifier: "verif"}, Principals: []string{p.LogName},
+				PublicKey: pubText, Validity: 3600, KeyId: fmt.Sprintf("verif %s key %d request %d", h.ID, i, j)}
+			if h.SameKeyID {
+				req.KeyId, req.KeyMeta.Identifier = fmt.Sprintf("verif %s key %d", h.ID, i), fmt.Sprintf("verif-slot-%d", j)
+			}
+			fk.csrs = append(fk.csrs, req)
 		}
 		h.Keys = append(h.Keys, fk)
 		out = append(out, fk)
